@@ -99,3 +99,123 @@ package cqrs
 //@   nopanic
 //@   ensures err == nil ==> protodecoded(v) == bytes(msg.Payload) [target-decoded-from-exactly-the-payload]
 //@   modifies ghost(protodecoded)
+
+// ---- context (C15) ----
+
+//@ func CtxWithOriginalMessage
+//@   requires ctx != nil
+//@   nopanic
+//@   pure
+//@   ensures result != nil && ctxval(result, boxed(originalMessage)) == boxed(msg) [original-message-stored]
+
+//@ func OriginalMessageFromCtx
+//@   requires ctx != nil
+//@   nopanic
+//@   pure
+//@   ensures hasdyntype(ctxval(ctx, boxed(originalMessage)), "*message.Message") ==> result == unboxptr(ctxval(ctx, boxed(originalMessage)), "message.Message") [reads-the-stored-message]
+//@   ensures !hasdyntype(ctxval(ctx, boxed(originalMessage)), "*message.Message") ==> result == nil
+
+// ---- buses (C15) ----
+
+//@ spec mname(m any, v any) string
+//@ spec mnfm(m any, msg *message.Message) string
+
+//@ func (CommandBus).SendWithModifiedMessage
+//@   requires c.config.Marshaler != nil && c.config.GeneratePublishTopic != nil && c.publisher != nil && ctx != nil
+//@   callee MAR = c.config.Marshaler.Marshal
+//@   callee NAME = c.config.Marshaler.Name : function mname
+//@   callee TOPIC = c.config.GeneratePublishTopic
+//@   callee ONSEND = c.config.OnSend
+//@   callee MOD = modify
+//@   callee P = c.publisher.Publish
+//@   maypanic
+//@   ensures calls(P) <= old(calls(P)) + 1 [published-at-most-once]
+//@   ensures result == nil ==> calls(P) == old(calls(P)) + 1 && ret(P, 0, old(calls(P))) == nil [success-only-if-the-publisher-accepted]
+//@   ensures calls(P) == old(calls(P)) + 1 ==> result == ret(P, 0, old(calls(P))) && calls(MAR) == old(calls(MAR)) + 1 && arg(MAR, 0, old(calls(MAR))) == cmd && ret(MAR, 1, old(calls(MAR))) == nil && len(arg(P, 1, old(calls(P)))) == 1 && arg(P, 1, old(calls(P)))[0] == ret(MAR, 0, old(calls(MAR))) [the-marshaled-command-is-what-gets-published]
+//@   ensures calls(P) == old(calls(P)) + 1 ==> calls(TOPIC) == old(calls(TOPIC)) + 1 && ret(TOPIC, 1, old(calls(TOPIC))) == nil && arg(P, 0, old(calls(P))) == ret(TOPIC, 0, old(calls(TOPIC))) && arg(TOPIC, 0, old(calls(TOPIC))).CommandName == mname(c.config.Marshaler, cmd) && arg(TOPIC, 0, old(calls(TOPIC))).Command == cmd [on-the-topic-generated-for-its-type-name]
+//@   ensures calls(P) == old(calls(P)) + 1 ==> arg(P, 1, old(calls(P)))[0].ctx == ctx [carrying-the-senders-context]
+//@   ensures calls(P) == old(calls(P)) + 1 && c.config.OnSend != nil ==> calls(ONSEND) == old(calls(ONSEND)) + 1 && ret(ONSEND, 0, old(calls(ONSEND))) == nil && arg(ONSEND, 0, old(calls(ONSEND))).Message == arg(P, 1, old(calls(P)))[0] [after-OnSend-accepted-it]
+//@   ensures calls(P) == old(calls(P)) + 1 && modify != nil ==> calls(MOD) == old(calls(MOD)) + 1 && ret(MOD, 0, old(calls(MOD))) == nil && arg(MOD, 0, old(calls(MOD))) == arg(P, 1, old(calls(P)))[0] [and-after-modify-accepted-it]
+//@   assert @call:modify: c.config.OnSend != nil ==> calls(ONSEND) == old(calls(ONSEND)) + 1 [OnSend-runs-before-modify]
+//@   panics-ensures true
+//@   modifies field(message.Message.ctx)
+
+//@ func (CommandBus).Send
+//@   requires c.config.Marshaler != nil && c.config.GeneratePublishTopic != nil && c.publisher != nil && ctx != nil
+//@   callee MAR = c.config.Marshaler.Marshal
+//@   callee P = c.publisher.Publish
+//@   maypanic
+//@   ensures calls(P) <= old(calls(P)) + 1 [published-at-most-once]
+//@   ensures result == nil ==> calls(P) == old(calls(P)) + 1 && ret(P, 0, old(calls(P))) == nil [success-only-if-the-publisher-accepted]
+//@   panics-ensures true
+//@   modifies field(message.Message.ctx)
+
+//@ func (EventBus).Publish
+//@   requires c.config.Marshaler != nil && c.config.GeneratePublishTopic != nil && c.publisher != nil && ctx != nil
+//@   callee MAR = c.config.Marshaler.Marshal
+//@   callee NAME = c.config.Marshaler.Name : function mname
+//@   callee TOPIC = c.config.GeneratePublishTopic
+//@   callee ONPUB = c.config.OnPublish
+//@   callee P = c.publisher.Publish
+//@   maypanic
+//@   ensures calls(P) <= old(calls(P)) + 1 [published-at-most-once]
+//@   ensures result == nil ==> calls(P) == old(calls(P)) + 1 && ret(P, 0, old(calls(P))) == nil [success-only-if-the-publisher-accepted]
+//@   ensures calls(P) == old(calls(P)) + 1 ==> result == ret(P, 0, old(calls(P))) && calls(MAR) == old(calls(MAR)) + 1 && arg(MAR, 0, old(calls(MAR))) == event && ret(MAR, 1, old(calls(MAR))) == nil && len(arg(P, 1, old(calls(P)))) == 1 && arg(P, 1, old(calls(P)))[0] == ret(MAR, 0, old(calls(MAR))) [the-marshaled-event-is-what-gets-published]
+//@   ensures calls(P) == old(calls(P)) + 1 ==> calls(TOPIC) == old(calls(TOPIC)) + 1 && ret(TOPIC, 1, old(calls(TOPIC))) == nil && arg(P, 0, old(calls(P))) == ret(TOPIC, 0, old(calls(TOPIC))) && arg(TOPIC, 0, old(calls(TOPIC))).EventName == mname(c.config.Marshaler, event) && arg(TOPIC, 0, old(calls(TOPIC))).Event == event [on-the-topic-generated-for-its-type-name]
+//@   ensures calls(P) == old(calls(P)) + 1 ==> arg(P, 1, old(calls(P)))[0].ctx == ctx [carrying-the-publishers-context]
+//@   panics-ensures true
+//@   modifies field(message.Message.ctx)
+
+// ---- processors (C15) ----
+
+//@ func (CommandProcessor).routerHandlerFunc$1
+//@   requires msg != nil && handler != nil && p.config.Marshaler != nil && logger != nil
+//@   callee NC = handler.NewCommand
+//@   callee NFM = p.config.Marshaler.NameFromMessage : function mnfm
+//@   callee UM = p.config.Marshaler.Unmarshal
+//@   callee HANDLE = params.Handler.Handle
+//@   callee ONH = handle
+//@   ensures mnfm(p.config.Marshaler, msg) != cmdName ==> result == nil && calls(UM) == old(calls(UM)) && calls(HANDLE) == old(calls(HANDLE)) && calls(ONH) == old(calls(ONH)) && msg.ctx == old(msg.ctx) [a-command-of-another-type-is-acknowledged-untouched]
+//@   ensures mnfm(p.config.Marshaler, msg) == cmdName ==> calls(UM) == old(calls(UM)) + 1 && arg(UM, 0, old(calls(UM))) == msg && arg(UM, 1, old(calls(UM))) == ret(NC, 0, old(calls(NC))) [a-matching-command-is-unmarshaled-into-a-fresh-command-value]
+//@   ensures mnfm(p.config.Marshaler, msg) == cmdName && ret(UM, 0, old(calls(UM))) != nil ==> result == ret(UM, 0, old(calls(UM))) && calls(HANDLE) == old(calls(HANDLE)) && calls(ONH) == old(calls(ONH)) [unmarshal-error-returned-handler-not-invoked]
+//@   ensures mnfm(p.config.Marshaler, msg) == cmdName && ret(UM, 0, old(calls(UM))) == nil && p.config.OnHandle == nil ==> calls(HANDLE) == old(calls(HANDLE)) + 1 && calls(ONH) == old(calls(ONH)) && arg(HANDLE, 1, old(calls(HANDLE))) == ret(NC, 0, old(calls(NC))) && ctxval(arg(HANDLE, 0, old(calls(HANDLE))), boxed(originalMessage)) == boxed(msg) && (result == nil) == (ret(HANDLE, 0, old(calls(HANDLE))) == nil || p.config.AckCommandHandlingErrors) [handler-invoked-once-with-the-unmarshaled-command-and-the-original-message-in-its-context-nack-unless-configured]
+//@   ensures mnfm(p.config.Marshaler, msg) == cmdName && ret(UM, 0, old(calls(UM))) == nil && p.config.OnHandle != nil ==> calls(ONH) == old(calls(ONH)) + 1 && calls(HANDLE) == old(calls(HANDLE)) && arg(ONH, 0, old(calls(ONH))).Handler == handler && arg(ONH, 0, old(calls(ONH))).Command == ret(NC, 0, old(calls(NC))) && arg(ONH, 0, old(calls(ONH))).Message == msg && (result == nil) == (ret(ONH, 0, old(calls(ONH))) == nil || p.config.AckCommandHandlingErrors) [OnHandle-replaces-the-direct-call]
+//@   ensures result != nil && calls(HANDLE) == old(calls(HANDLE)) + 1 ==> result == ret(HANDLE, 0, old(calls(HANDLE))) [the-handlers-error-is-the-nack-reason]
+//@   panics-ensures true
+//@   modifies msg.ctx
+
+//@ func (EventProcessor).routerHandlerFunc$1
+//@   requires msg != nil && handler != nil && p.config.Marshaler != nil && logger != nil
+//@   callee NE = handler.NewEvent
+//@   callee NFM = p.config.Marshaler.NameFromMessage : function mnfm
+//@   callee UM = p.config.Marshaler.Unmarshal
+//@   callee HANDLE = params.Handler.Handle
+//@   callee ONH = handle
+//@   ensures mnfm(p.config.Marshaler, msg) != expectedEventName ==> (result == nil) == p.config.AckOnUnknownEvent && calls(UM) == old(calls(UM)) && calls(HANDLE) == old(calls(HANDLE)) && calls(ONH) == old(calls(ONH)) && msg.ctx == old(msg.ctx) [an-event-of-another-type-is-acked-or-rejected-as-configured]
+//@   ensures mnfm(p.config.Marshaler, msg) == expectedEventName ==> calls(UM) == old(calls(UM)) + 1 && arg(UM, 0, old(calls(UM))) == msg && arg(UM, 1, old(calls(UM))) == ret(NE, 0, old(calls(NE))) [a-matching-event-is-unmarshaled-into-a-fresh-event-value]
+//@   ensures mnfm(p.config.Marshaler, msg) == expectedEventName && ret(UM, 0, old(calls(UM))) != nil ==> result == ret(UM, 0, old(calls(UM))) && calls(HANDLE) == old(calls(HANDLE)) && calls(ONH) == old(calls(ONH)) [unmarshal-error-returned-handler-not-invoked]
+//@   ensures mnfm(p.config.Marshaler, msg) == expectedEventName && ret(UM, 0, old(calls(UM))) == nil && p.config.OnHandle == nil ==> calls(HANDLE) == old(calls(HANDLE)) + 1 && arg(HANDLE, 1, old(calls(HANDLE))) == ret(NE, 0, old(calls(NE))) && ctxval(arg(HANDLE, 0, old(calls(HANDLE))), boxed(originalMessage)) == boxed(msg) && result == ret(HANDLE, 0, old(calls(HANDLE))) [handler-invoked-once-its-error-decides]
+//@   ensures mnfm(p.config.Marshaler, msg) == expectedEventName && ret(UM, 0, old(calls(UM))) == nil && p.config.OnHandle != nil ==> calls(ONH) == old(calls(ONH)) + 1 && calls(HANDLE) == old(calls(HANDLE)) && arg(ONH, 0, old(calls(ONH))).Handler == handler && arg(ONH, 0, old(calls(ONH))).Event == ret(NE, 0, old(calls(NE))) && result == ret(ONH, 0, old(calls(ONH))) [OnHandle-replaces-the-direct-call]
+//@   panics-ensures true
+//@   modifies msg.ctx
+
+//@ func (EventGroupProcessor).routerHandlerGroupFunc$1
+//@   requires msg != nil && p.config.Marshaler != nil && logger != nil
+//@   requires forall j int :: 0 <= j && j < len(handlers) ==> handlers[j] != nil
+//@   callee NE = handler.NewEvent
+//@   callee NFM = p.config.Marshaler.NameFromMessage : function mnfm
+//@   callee NAME = p.config.Marshaler.Name : function mname
+//@   callee UM = p.config.Marshaler.Unmarshal
+//@   callee HANDLE = params.Handler.Handle
+//@   callee ONH = handle
+//@   ensures result == nil ==> (forall k int :: old(calls(HANDLE)) <= k && k < calls(HANDLE) ==> ret(HANDLE, 0, k) == nil) && (forall k int :: old(calls(ONH)) <= k && k < calls(ONH) ==> ret(ONH, 0, k) == nil) [success-only-if-every-invoked-handler-succeeded]
+//@   ensures result == nil && calls(HANDLE) == old(calls(HANDLE)) && calls(ONH) == old(calls(ONH)) ==> p.config.AckOnUnknownEvent [an-event-no-handler-takes-is-acked-only-if-configured]
+//@   ensures calls(HANDLE) == old(calls(HANDLE)) && calls(ONH) == old(calls(ONH)) && calls(UM) == old(calls(UM)) && !p.config.AckOnUnknownEvent ==> result != nil [and-rejected-otherwise]
+//@   ensures forall k int :: old(calls(HANDLE)) <= k && k < calls(HANDLE) - 1 ==> ret(HANDLE, 0, k) == nil [a-failing-handler-stops-the-group-no-later-handler-runs]
+//@   ensures forall k int :: old(calls(HANDLE)) <= k && k < calls(HANDLE) ==> (exists j int :: 0 <= j && j < len(handlers) && rcv(HANDLE, k) == handlers[j] && ctxval(arg(HANDLE, 0, k), boxed(originalMessage)) == boxed(msg)) [only-handlers-of-this-group-are-invoked-with-the-original-message-in-context]
+//@   inv loop 1: (forall k int :: old(calls(HANDLE)) <= k && k < calls(HANDLE) ==> ret(HANDLE, 0, k) == nil) && (forall k int :: old(calls(ONH)) <= k && k < calls(ONH) ==> ret(ONH, 0, k) == nil) && calls(HANDLE) >= old(calls(HANDLE)) && calls(ONH) >= old(calls(ONH)) && calls(UM) >= old(calls(UM)) [handlers-so-far-succeeded]
+//@   inv loop 1: handledAnyEvent == (calls(HANDLE) + calls(ONH) > old(calls(HANDLE)) + old(calls(ONH))) && (calls(UM) > old(calls(UM)) ==> handledAnyEvent) [handled-flag-tracks-invocations]
+//@   inv loop 1: forall k int :: old(calls(HANDLE)) <= k && k < calls(HANDLE) ==> (exists j int :: 0 <= j && j <= rangeindex && rcv(HANDLE, k) == handlers[j] && ctxval(arg(HANDLE, 0, k), boxed(originalMessage)) == boxed(msg)) [invoked-handlers-belong-to-the-group]
+//@   inv loop 1: forall j int :: 0 <= j && j < len(handlers) ==> handlers[j] != nil && handlers[j] == old(handlers[j]) [group-unchanged]
+//@   panics-ensures true
+//@   modifies msg.ctx
